@@ -10,7 +10,7 @@ MCNets == {1, 2}
 (***************************************************************************)
 VARIABLE d
 
-AllDescriptors == Descriptors(SigBytePositions, OvDamages, UnDamages, NetDamages)
+AllDescriptors == Descriptors(SigBytePositions, OvDamages \cup {"prez", "empty"}, UnDamages, NetDamages, Shifts, Claims \cup {"prez", "empty"})
 
 Init == d \in AllDescriptors
 Next == UNCHANGED d
@@ -25,4 +25,24 @@ OwnAlwaysAccepted == d.mut = "none" => Accept(RecOf(d), CheckNet(d))
 \*  the same data, so the statement's first sentence admits it; it is kept out of the verdicts and its
 \*  acceptance is reported as a conformance note)
 ChangedRejected == d.mut \notin {"none", "sig_twin"} => ~Accept(RecOf(d), CheckNet(d))
+
+\* moving the field boundary keeps the signed bytes (so the signature IS one made by the key over "the underlay, overlay and
+\* network id" as concatenated) but claims an overlay of another length that is nobody's ...
+ShiftKeepsSignedBytes ==
+  d.mut = "shift" => LET r == RecOf(d)  b == BaseRec(d)
+                     IN /\ Msg(r.u, r.o, SignNet(d)) = Msg(b.u, b.o, SignNet(d))
+                        /\ r.o # b.o /\ r.u # b.u
+                        /\ MadeBy(r.s, d.k, Msg(r.u, r.o, SignNet(d)))
+\* ... and only the length-exact comparison of the claimed overlay pins the boundary: a comparison of its last 32 bytes
+\* would accept every record whose underlay tail was moved in front of the overlay, and every self-made claim of an
+\* overlay that merely ENDS with the key's overlay
+BoundaryPinnedByExactComparison ==
+  /\ (d.mut = "shift" /\ d.how \in {"c0", "c1", "c2", "c3"}) => (ParseSuffixOK(RecOf(d), CheckNet(d)) /\ ~ParseOK(RecOf(d), CheckNet(d)))
+  /\ (d.mut = "claim" /\ d.how \in {"pre1", "prez", "pre42"}) => (ParseSuffixOK(RecOf(d), CheckNet(d)) /\ ~ParseOK(RecOf(d), CheckNet(d)))
+\* fields are kept in normal form (no two adjacent pieces of one base that touch), so field equality is byte equality
+Normal(f) == \A i \in 1..(Len(f) - 1) : ~(f[i][1] = f[i + 1][1] /\ f[i][3] = f[i + 1][2])
+FieldsNormal == Normal(RecOf(d).u) /\ Normal(RecOf(d).o) /\ Normal(RecOf(d).s.m[1])
+\* every length the model can claim for an overlay: 32 exactly when accepted
+AcceptedOverlayIs32 == LET UC == [u \in UnderlayIds |-> <<0, 5, 8, 46, 47>>]
+                       IN Accept(RecOf(d), CheckNet(d)) => FieldBytes(RecOf(d).o, UC) = 32
 =============================================================================
